@@ -401,9 +401,9 @@ func runC06(a vh.Args, o *vh.Oracle, r *vh.Result) error {
 	rng := vh.NewRand(a.Seed)
 	thorough := a.Tier == "thorough"
 	ns := []int{1, 2, 4, 16}
-	inputs := 2
+	inputs := 4
 	exhaustiveLimit := 14
-	randomSets := 4
+	randomSets := 8
 	if thorough {
 		inputs = 8
 		exhaustiveLimit = 60
